@@ -373,6 +373,49 @@ def gen_emit_doc(rng, families=True, unsupported=False):
     return doc, ev
 
 
+# option texts outside the D0 -> K- pi+ pi+ pi- family: final states with spin (leptons, a photon), B mesons, an open anti-charm
+# resonance with a spline line shape, charmonium
+OTHER_FAMILIES = [
+    """EventType B0 mu+ mu- K+ pi-
+B0{J/psi(1S){mu+,mu-},K*(892)0{K+,pi-}}                    2 1         0          2 0         0
+B0[P]{J/psi(1S){mu+,mu-},K*(892)0{K+,pi-}}                 0 0.5       0.01       0 1.0       0.01
+B0[D]{K*(892)0{K+,pi-},J/psi(1S){mu+,mu-}}                 0 0.3       0.01       0 -1.0      0.01
+""",
+    """EventType B+ mu+ mu- gamma K+
+B+{chi(c1)(1P){J/psi(1S){mu+,mu-},gamma},K+}               2 1         0          2 0         0
+B+{chi(c2)(1P){J/psi(1S){mu+,mu-},gamma},K+}               0 0.2       0.01       0 0.4       0.01
+""",
+    """EventType B0 Dbar0 pi0 pi- pi+
+D(2)*(2460)-::Spline::Min 4.1
+D(2)*(2460)-::Spline::Max 9.5
+D(2)*(2460)-::Spline::N   4
+B0{D(2)*(2460)-[GSpline.EFF]{D*(2007)bar0{Dbar0,pi0},pi-},pi+}   0 0.8 0.01 0 0.3 0.02
+D(2)*(2460)-::Spline::Gamma::0   2 0.011 0
+D(2)*(2460)-::Spline::Gamma::1   2 0.024 0
+D(2)*(2460)-::Spline::Gamma::2   2 0.031 0
+D(2)*(2460)-::Spline::Gamma::3   2 0.047 0
+""",
+    """EventType Bbar0 D0 pi0 pi+ pi-
+D(2)*(2460)+::Spline::Min 4.1
+D(2)*(2460)+::Spline::Max 9.5
+D(2)*(2460)+::Spline::N   3
+Bbar0{D(2)*(2460)+[GSpline.EFF]{D*(2007)0{D0,pi0},pi+},pi-}   2 0.8 0.01 2 0.3 0.02
+D(2)*(2460)+::Spline::Gamma::0   2 0.011 0
+D(2)*(2460)+::Spline::Gamma::1   0 0.024 0.1
+D(2)*(2460)+::Spline::Gamma::2   2 0.031 0
+""",
+]
+
+
+def other_family_docs():
+    out = []
+    for text in OTHER_FAMILIES:
+        doc = conv_amp_tree(raw_amp_parse(text))
+        ev = next(st[1] for st in doc if st[0] == "event_type")
+        out.append((doc, ev))
+    return out
+
+
 def required_families(doc, rng):
     """the parameter and constant lines the lineshapes of the document need (the premise of C19)"""
     out = []
